@@ -220,6 +220,69 @@ def extra_canonical(sym, perm, dumps):
     sym.check("sorted-keys-indent-4", canonical_json(sym, texts[0]))
 
 
+def treeinfo_canonical(sym, vperm, iperm, cperm, dumps):
+    """variants, image tables, platforms and checksums added in any order; sections and options come out sorted"""
+    import configparser
+    import productmd.treeinfo as T
+    sym.option("set_order", "nondet")
+    text = [(33, 36), (38, 126)]
+    names = [sym.str("vname%d" % i, 2, minlen=1, alphabet=text) for i in range(3)]
+    imgs = [sym.str("img%d" % i, 2, minlen=1, alphabet=[(97, 122)]) for i in range(3)]
+    sums = [sym.str("sum%d" % i, 2, minlen=1, alphabet="hexlower") for i in range(3)]
+    vspec = [("Server", "Server", None, "variant"), ("Client", "Client", None, "variant"), ("HA", "Server-HA", "Server", "addon")]
+    ispec = [("x86_64", "boot.iso"), ("x86_64", "Kernel"), ("xen", "kernel")]
+    cspec = ["images/boot.iso", "Images/efiboot.img", "LiveOS/squashfs.img"]
+
+    def build(vo, io_, co, platforms):
+        ti = T.TreeInfo()
+        ti.release.name = "Fedora"
+        ti.release.short = "F"
+        ti.release.version = "21"
+        ti.tree.arch = "x86_64"
+        ti.tree.build_timestamp = 1417653453
+        ti.tree.platforms = set()
+        for pl in platforms:
+            ti.tree.platforms.add(pl)
+        objs = {}
+        pending = [vspec[i] + (names[i],) for i in vo]
+        while pending:
+            rest = []
+            for vid, uid, parent, typ, name in pending:
+                if parent is not None and parent not in objs:
+                    rest.append((vid, uid, parent, typ, name))
+                    continue
+                v = T.Variant(ti)
+                v.id, v.uid, v.name, v.type = vid, uid, name, typ
+                v.paths.packages = uid + "/Packages"
+                objs[uid] = v
+                if parent is None:
+                    ti.variants.add(v)
+                else:
+                    objs[parent].add(v)
+            pending = rest
+        for i in io_:
+            platform, name = ispec[i]
+            ti.images.images.setdefault(platform, {})[name] = imgs[i]
+        for i in co:
+            ti.checksums.add(cspec[i], "sha256", sums[i])
+        return ti
+    reference = build([0, 1, 2], [0, 1, 2], [0, 1, 2], ["x86_64", "xen", "ppc64le"]).dumps()
+    other = build(vperm, iperm, cperm, ["ppc64le", "xen", "x86_64"])
+    sym.cover("built")
+    texts = [other.dumps() for _ in range(dumps)]
+    for i, t in enumerate(texts):
+        sym.check("same-bytes-as-reference-order[dump %d]" % i, t == reference)
+    # sections and options sorted, as seen by a plain order-preserving reader
+    p = configparser.ConfigParser(interpolation=None)
+    p.optionxform = str
+    p.read_string(texts[0])
+    sections = p.sections()
+    sym.check("sections-sorted", sections == sorted(sections))
+    for sec in sections:
+        opts = [k for k, v in p.items(sec)]
+        sym.check("options-sorted[%s]" % sec, opts == sorted(opts))
+
+
 def jobs(tier, seed):
     big = tier == "thorough"
     out = []
@@ -236,13 +299,15 @@ def jobs(tier, seed):
             out.append({"harness": "rpms_canonical", "params": {"perm": p, "dumps": 2}})
             out.append({"harness": "modules_canonical", "params": {"perm": p, "dumps": 2}})
             out.append({"harness": "extra_canonical", "params": {"perm": p, "dumps": 3}})
+    for pi in (range(6) if big else [(seed) % 6, (seed + 3) % 6]):
+        out.append({"harness": "treeinfo_canonical", "params": {"vperm": PERMS3[pi], "iperm": PERMS3[(pi + 2) % 6], "cperm": PERMS3[(pi + 4) % 6], "dumps": 2}})
     for j in out:
         j["replay_hashseeds"] = 12          # a set-order dependence shows natively only under some hash seeds
     return out
 
 
 META = {
-    "expected_covers": {"composeinfo_canonical": ["built"], "images_canonical": ["built"], "rpms_canonical": ["built"], "modules_canonical": ["built"],
+    "expected_covers": {"treeinfo_canonical": ["built"], "composeinfo_canonical": ["built"], "images_canonical": ["built"], "rpms_canonical": ["built"], "modules_canonical": ["built"],
                         "extra_canonical": ["built"]},
     "assumptions": [
         "content symbolic (names, paths, checksums, tags), the construction order a permutation given per job (all 24/6 in the thorough tier), "
@@ -250,6 +315,7 @@ META = {
         "dict iteration follows insertion order (Python >= 3.7 language guarantee), which the permuted construction orders exercise",
         "each object is dumped 2-3 times; every dump must equal the dump of the reference construction order",
         "JSON text layer replaced by the DocText stub: two texts are equal iff normalised formatting arguments and ordered skeletons are equal",
-        "treeinfo (sections/options sorted) is covered once the INI layer is enabled",
+        "treeinfo: variants, image tables, platform set and checksums built in permuted orders; the written text is also read by a plain order-preserving "
+        "ConfigParser to check that sections and options are ascending",
     ],
 }
